@@ -653,15 +653,24 @@ Definition with_multi (b : bool) (i : input) : input :=
      i_err := match i_err i with
               | Some e => Some {| e_status := e_status e; e_multi := b; e_msg := e_msg e |}
               | None => None end;
-     i_ttl := i_ttl i; i_ctx_done := i_ctx_done i; i_errf := i_errf i; i_ver := i_ver i |}.
+     i_ttl := i_ttl i; i_ctx_done := i_ctx_done i; i_errf := i_errf i; i_ver := i_ver i;
+     i_ctx_errs := i_ctx_errs i |}.
 Definition with_impl (im : impl) (i : input) : input :=
   {| i_impl := im; i_render := i_render i; i_resp := i_resp i; i_err := i_err i;
-     i_ttl := i_ttl i; i_ctx_done := i_ctx_done i; i_errf := i_errf i; i_ver := i_ver i |}.
+     i_ttl := i_ttl i; i_ctx_done := i_ctx_done i; i_errf := i_errf i; i_ver := i_ver i;
+     i_ctx_errs := i_ctx_errs i |}.
 
 Lemma multi_irrelevant b i : handler (with_multi b i) = handler i.
 Proof.
-  destruct i as [im rd rs er ttl cd ef ver]. destruct er as [[es em msg]|]; reflexivity.
+  destruct i as [im rd rs er ttl cd ef ver ce]. destruct er as [[es em msg]|]; reflexivity.
 Qed.
+
+Definition with_ctx_errs (l : list ctx_err) (i : input) : input :=
+  {| i_impl := i_impl i; i_render := i_render i; i_resp := i_resp i; i_err := i_err i;
+     i_ttl := i_ttl i; i_ctx_done := i_ctx_done i; i_errf := i_errf i; i_ver := i_ver i;
+     i_ctx_errs := l |}.
+Lemma ctx_errs_irrelevant l i : handler (with_ctx_errs l i) = handler i.
+Proof. destruct i as [im rd rs er ttl cd ef ver ce]. reflexivity. Qed.
 
 Lemma impls_agree i im1 im2 o1 o2 :
   meta_disjoint i ->
@@ -679,7 +688,7 @@ Definition spoof_input (im : impl) (k v : string) : input :=
   {| i_impl := im; i_render := RNoop;
      i_resp := Some {| r_data := Some []; r_complete := true; r_meta := [(k, [v])];
                        r_status := 200; r_io := Some "body" |};
-     i_err := None; i_ttl := 0; i_ctx_done := false; i_errf := 500; i_ver := "Version undefined" |}.
+     i_err := None; i_ttl := 0; i_ctx_done := false; i_errf := 500; i_ver := "Version undefined"; i_ctx_errs := [] |}.
 
 Lemma completed_spoof im :
   exists o, handler (spoof_input im "x-krakend-completed" "true") = Reply o /\
@@ -698,7 +707,7 @@ Definition override_input : input :=
   {| i_impl := MuxEngine; i_render := RNoop;
      i_resp := Some {| r_data := Some [("k", JStr "v")]; r_complete := true; r_meta := [];
                        r_status := 201; r_io := None |};
-     i_err := None; i_ttl := 0; i_ctx_done := false; i_errf := 500; i_ver := "Version undefined" |}.
+     i_err := None; i_ttl := 0; i_ctx_done := false; i_errf := 500; i_ver := "Version undefined"; i_ctx_errs := [] |}.
 Lemma engine_override_witness :
   exists o, handler override_input = Reply o /\ cond override_input = true /\
             meta_disjoint override_input /\ o_completed o = ["false"].
